@@ -153,6 +153,16 @@ def record(sc):
                     elif a[0] == "reopen":
                         pool.close()
                         pool = elfi.ArrayPool.open(name, prefix=workdir)
+                    elif a[0] == "save":
+                        pool.save()
+                    elif a[0] == "staleopen":
+                        # the process ends without saving again (data flushed, files closed); the pool is then opened
+                        # from the OLDER pickle: it makes available the batches it had when it was saved
+                        pool.flush()
+                        for st in pool.stores.values():
+                            if hasattr(st, "close"):
+                                st.close()
+                        pool = elfi.ArrayPool.open(name, prefix=workdir)
                     elif a[0] == "badctx":
                         kw = dict(batch_size=sc["bs"] + 1, seed=sc["seed"]) if a[1] == "bs" else \
                             dict(batch_size=sc["bs"], seed=(sc["seed"] + 1) if a[1] == "seed" else 0)     # "seed0": seed 0 is a seed like any other
@@ -192,8 +202,13 @@ def random_history(rnd, stored, pool_kind, n_acts):
     replaced = set()
     removed_once = set()
     ran = False
+    saved_ok = False        # a pickle exists and the set of stores did not change since
     for _ in range(n_acts):
         ch = ["run", "run", "run"]
+        if pool_kind == "array" and ran:
+            ch.append("save")
+            if saved_ok:
+                ch += ["staleopen", "staleopen"]
         removable = [n for n in stored if stated_form(stored - {n})]
         if removable and ran:
             ch.append("remove")
@@ -214,14 +229,22 @@ def random_history(rnd, stored, pool_kind, n_acts):
         if a == "run":
             acts.append(["run", rnd.randint(1, 4)])
             ran = True
+        elif a == "save":
+            acts.append(["save"])
+            saved_ok = True
+        elif a == "staleopen":
+            acts.append(["staleopen"])
+            acts.append(["run", rnd.randint(2, 5)])
         elif a == "remove":
             n = rnd.choice(removable)
             stored.discard(n)
             removed_once.add(n)
+            saved_ok = False
             acts.append(["remove", n])
         elif a == "addstore":
             n = rnd.choice(gone)
             stored.add(n)
+            saved_ok = False
             acts.append(["addstore", n])
             acts.append(["run", rnd.randint(1, 4)])
         elif a == "replace":
@@ -230,6 +253,7 @@ def random_history(rnd, stored, pool_kind, n_acts):
             acts.append(["replace", n])
         elif a == "reopen":
             acts.append(["reopen"])
+            saved_ok = True
         else:
             acts.append(["badctx", rnd.choice(["bs", "seed", "seed0"])])
     if not any(a[0] == "run" for a in acts[1:]):
@@ -264,19 +288,25 @@ def scenarios(ctx):
                 out.append(dict(stored=stored, pool=pool_kind, bs=bs, n=rnd.randint(1, bs), seed=rnd.randint(1, 2 ** 31 - 1),
                                 extra=rnd.choice([[], ["S"], ["S", "sim"]]),
                                 acts=random_history(rnd, stored, pool_kind, rnd.randint(3, 6))))
+    # on-disk pools opened from a pickle that is older than the data files (saved, used further, not saved again)
+    for stored in (STATED if not ctx.quick else [["sim"], ["S", "d"], ["sim", "S", "d", "t1", "t2"]]):
+        k1, k2, k3 = rnd.randint(1, 2), rnd.randint(3, 4), rnd.randint(5, 7)
+        out.append(dict(stored=stored, pool="array", bs=rnd.choice([1, 2, 3]), n=1, seed=rnd.randint(1, 2 ** 31 - 1), extra=[],
+                        acts=[["run", k1], ["save"], ["run", k2], ["staleopen"], ["run", k3], ["run", k3]]))
     return out
 
 
-def mc_cfg(sets, mb, mr, keep, invs):
+def mc_cfg(sets, mb, mr, keep, invs, save=False):
     return """SPECIFICATION Spec
 CONSTANTS
   StoredSets <- %s
   MaxBatches = %d
   MaxRuns = %d
   KeepForm = %s
+  WithSave = %s
 %s
 CHECK_DEADLOCK FALSE
-""" % (sets, mb, mr, "TRUE" if keep else "FALSE", "\n".join("INVARIANT " + i for i in invs))
+""" % (sets, mb, mr, "TRUE" if keep else "FALSE", "TRUE" if save else "FALSE", "\n".join("INVARIANT " + i for i in invs))
 
 
 # ------------------------------------------------------------------ extension: pool API histories (PoolApi.tla)
@@ -474,6 +504,9 @@ def run(ctx):
     ctx.clauses_not_decided = ["SMC / BOLFI with pools (the statement's results are those of Rejection-type runs whose parameters come from the prior)"]
     ctx.tlc("MC_Pool", "MC_Pool_stated", cfg_text=mc_cfg("Stated", 3, 3 if ctx.quick else 4, True, ["Transparent", "NoResim", "PoolFresh"]),
             expect_actions=["Run", "RemoveStore", "Replace"], timeout=900)
+    # on-disk pools: saved, used further, opened from the older pickle
+    ctx.tlc("MC_Pool", "MC_Pool_save", cfg_text=mc_cfg("StatedSmall" if ctx.quick else "Stated", 3, 3, True, ["Transparent", "NoResim", "PoolFresh"], save=True),
+            expect_actions=["Run", "Save", "StaleOpen"], timeout=1500)
     ctx.tlc("MC_Pool", "MC_Pool_partial", cfg_text=mc_cfg("Partial", 2, 2, True, ["Transparent"]), expect_ok=False, timeout=300)
     ctx.tlc("MC_Pool", "MC_Pool_formbreak", cfg_text=mc_cfg("Stated", 2, 2, False, ["Transparent"]), expect_ok=False, timeout=300)
     ctx.tlc("PoolApi", "MC_PoolApi", cfg_text="""SPECIFICATION Spec
